@@ -177,10 +177,19 @@ fn simple_subject<T: 'static>(name: &'static str, is_request: fn(&[u8]) -> bool,
 
 fn dbg<T: std::fmt::Debug>(t: &T) -> String { format!("{t:?}") }
 
+/// a Quake response with its map of remaining variables in a fixed order (two runs are compared through `Debug`)
+fn qnorm<P>(mut r: quake::Response<P>) -> (quake::Response<P>, Vec<(String, String)>) {
+    let mut u: Vec<(String, String)> = r.unused_entries.drain().collect();
+    u.sort();
+    (r, u)
+}
+
 fn subjects(rng: &mut Rng) -> Vec<Subject> {
     let mut v: Vec<Subject> = Vec::new();
     // --- valve: three positions, Enforce and Try variants
-    for try_mode in [false, true] {
+    // `cts`: a silent attempt is one in which the server still issues its challenge and then falls silent on the
+    // request that carries it (a timeout-class failure of the same unit, at the second message of the attempt)
+    for (try_mode, cts) in [(false, false), (true, false), (false, true), (true, true)] {
         let engine = Engine::new(440);
         let b = build(rng, &engine, 440, 3, 3, false);
         let st = b.state.clone();
@@ -197,7 +206,12 @@ fn subjects(rng: &mut Rng) -> Vec<Subject> {
         ];
         let (i2, p2, ru2, mal2) = (i.clone(), p.clone(), ru.clone(), malformed.clone());
         v.push(Subject {
-            name: if try_mode { "valve(try)" } else { "valve(enforce)" },
+            name: match (try_mode, cts) {
+                (false, false) => "valve(enforce)",
+                (true, false) => "valve(try)",
+                (false, true) => "valve(enforce,challenge-then-silent)",
+                (true, true) => "valve(try,challenge-then-silent)",
+            },
             positions: 3,
             unit: false,
             run_multi: Some(Box::new(move |plans, r| {
@@ -208,7 +222,7 @@ fn subjects(rng: &mut Rng) -> Vec<Subject> {
                         .iter()
                         .map(|a| match a {
                             Att::Valid => Behaviour::Answer(valid[pos].clone()),
-                            Att::Silent => Behaviour::Silent,
+                            Att::Silent => if cts { Behaviour::ChallengeThenSilent } else { Behaviour::Silent },
                             Att::SendFails => Behaviour::SendFails,
                             Att::Malformed => Behaviour::Answer(vec![mal2[pos][0].clone()]),
                         })
@@ -233,7 +247,7 @@ fn subjects(rng: &mut Rng) -> Vec<Subject> {
                     .iter()
                     .map(|a| match a {
                         Att::Valid => Behaviour::Answer(valid[pos].clone()),
-                        Att::Silent => Behaviour::Silent,
+                        Att::Silent => if cts { Behaviour::ChallengeThenSilent } else { Behaviour::Silent },
                         Att::SendFails => Behaviour::SendFails,
                         Att::Malformed => Behaviour::Answer(vec![malformed[pos][alt % 2].clone()]),
                     })
@@ -264,9 +278,9 @@ fn subjects(rng: &mut Rng) -> Vec<Subject> {
             let d = st.encode(rng);
             let isreq: fn(&[u8]) -> bool = if ver == Ver::Three { |d| d == b"\xff\xff\xff\xffgetstatus\0" } else { |d| d == b"\xff\xff\xff\xffstatus\0" };
             match ver {
-                Ver::One => v.push(simple_subject(name, isreq, vec![d], vec![vec![1, 2, 3, 4, 5], b"\xff\xff\xff\xffprint\n\\a\\b\n".to_vec()], |t| quake::one::query(&addr(), t), dbg)),
-                Ver::Two => v.push(simple_subject(name, isreq, vec![d], vec![vec![1, 2, 3, 4, 5], b"\xff\xff\xff\xffstatusResponse\n\\a\\b\n".to_vec()], |t| quake::two::query(&addr(), t), dbg)),
-                Ver::Three => v.push(simple_subject(name, isreq, vec![d], vec![vec![1, 2, 3, 4, 5], b"\xff\xff\xff\xffprint\n\\a\\b\n".to_vec()], |t| quake::three::query(&addr(), t), dbg)),
+                Ver::One => v.push(simple_subject(name, isreq, vec![d], vec![vec![1, 2, 3, 4, 5], b"\xff\xff\xff\xffprint\n\\a\\b\n".to_vec()], |t| quake::one::query(&addr(), t).map(qnorm), dbg)),
+                Ver::Two => v.push(simple_subject(name, isreq, vec![d], vec![vec![1, 2, 3, 4, 5], b"\xff\xff\xff\xffstatusResponse\n\\a\\b\n".to_vec()], |t| quake::two::query(&addr(), t).map(qnorm), dbg)),
+                Ver::Three => v.push(simple_subject(name, isreq, vec![d], vec![vec![1, 2, 3, 4, 5], b"\xff\xff\xff\xffprint\n\\a\\b\n".to_vec()], |t| quake::three::query(&addr(), t).map(qnorm), dbg)),
             }
         }
         let bed = loop {
